@@ -46,8 +46,8 @@ def replay_file(path, witness=False):
 def matches_known(f, res):
     if f.get("fn") and f["fn"] != res["fn"]:
         return False
-    if f.get("P") is not None and f["P"] != res.get("P"):
-        return False
+    if f.get("P") is not None and any((res.get("P") or {}).get(k_) != v_ for k_, v_ in f["P"].items()):
+        return False        # every key the entry names must agree (chunk bounds alo/ahi may be left out of an entry)
     if res.get("kind") == "direct":
         return f.get("ce") == res.get("ce")
     mod = importlib.import_module(res["module"])
